@@ -33,6 +33,7 @@ def main():
             orig_wt = re.search(r'/tmp/mut/wt\d?_\w+', ch['build']).group(0)
             build = ch['build'].replace(orig_wt, wt)
             build = re.sub(r'-o \S+', '-o ' + demo_bin, build.split('  (')[0].split('   #')[0])
+            build = build[:build.index('-o ' + demo_bin) + len('-o ' + demo_bin)] + ' ' + ' '.join(w for w in build[build.index('-o ' + demo_bin) + len('-o ' + demo_bin):].split('&&')[0].split(';')[0].split() if w.startswith('-l') or w.startswith('-p'))
             r = dict(summary=ch['summary'], needs=ch['needs'])
             b0 = sh(build, cwd=out); run0 = sh(demo_bin, cwd=out, timeout=600)
             r['demo_clean'] = dict(build_rc=b0.returncode, rc=run0.returncode, tail=run0.stdout[-300:] if b0.returncode == 0 else b0.stdout[-600:])
